@@ -484,6 +484,11 @@ func (v *VC) evCall(x SCall, env *SpecEnv) TV {
 			specPanic("before(): not a loop-carried variable: %s", id.Name)
 		}
 		return tv
+	case "f2i":
+		// the integer a float converts to (same uninterpreted function the generator uses for int64(f))
+		a := v.ev(x.Args[0], env)
+		v.features["f2i"] = true
+		return TV{T: fmt.Sprintf("(f2i %s)", a.T), Typ: tInt}
 	case "wrap32":
 		a := v.ev(x.Args[0], env)
 		return TV{T: fmt.Sprintf("(mod %s 4294967296)", a.T), Typ: tInt}
